@@ -51,7 +51,7 @@ def gates(tier):
             "earley_rescaled.Earley.logp(x)": 20 * k, "Earley(prefix_grammar).next_token_weights": 400 * k,
             "IncrementalCKY(prefix_grammar).p_next": 400 * k},
         "shapes": {c: 3 * k for c in ["nullable_cycle", "unary_cycle", "recursive", "normalised", "unnormalised", "ctx:dead",
-                                      "ctx:viable", "long:run", "long:p<1e-100", "long:p<1e-600"]},
+                                      "ctx:viable", "long:run", "long:p<1e-100", "long:p<1e-600", "chain:inner-eos"]},
         "min_hashseeds": 2,
     }
 
@@ -382,6 +382,14 @@ def run_case(case, ctx):
             ok, v = ctx.call(api, c2, lm, x + (EOS,))
             if ok:
                 ctx.check(api, close2(v, wx / Z, 4 * rt, 1e-10), f"{name}.__call__/chain-rule", c2, {"have": v, "want": wx / Z})
+            # a sequence with an end-of-sequence symbol before its last position has probability zero
+            if len(x) <= 2:
+                for y in ((), x[:1]):
+                    seq = x + (EOS,) + y + (EOS,)
+                    ok, v = ctx.call(api, dict(c2, seq=list(seq)), lm, seq)
+                    if ok:
+                        ctx.shape["chain:inner-eos"] += 1
+                        ctx.check(api, v == 0, f"{name}.__call__/mass-after-inner-EOS", dict(c2, seq=list(seq)), {"seq": list(seq), "have": v, "want": 0})
             # probability of an extension given a context (p_next_seq): P(c.e) / P(c) for every split of x
             for k in range(len(x)):
                 c, e = x[:k], x[k:]
